@@ -1,15 +1,17 @@
-(* Correspondence definitions for C20: a case is a history of statements on one AUTO_INCREMENT table, each with what the
-   engine showed afterwards: succeeded?, OkResult.InsertID, LAST_INSERT_ID(), the table's next AUTO_INCREMENT value
-   (Table.PeekNextAutoIncrementValue) and the stored ids in ascending order.  The model runs the whole history from
-   the initial state. *)
+(* Correspondence definitions for C20: a case is a history of statements of up to three sessions on one AUTO_INCREMENT
+   table (INSERT / INSERT IGNORE / REPLACE / INSERT ... ON DUPLICATE KEY UPDATE, DELETE, ALTER TABLE AUTO_INCREMENT, UPDATE
+   of the id, SELECT LAST_INSERT_ID(n), BEGIN / COMMIT / ROLLBACK), each with what the engine showed afterwards:
+   succeeded?, OkResult.InsertID, LAST_INSERT_ID() of EVERY session, and - through the acting session - the table's next
+   AUTO_INCREMENT value (Table.PeekNextAutoIncrementValue) and the stored ids in ascending order.  The model runs the whole
+   history from the initial world; nothing is skipped (the two table-data copies of INSERT IGNORE are modelled). *)
 From Coq Require Import List ZArith Bool.
 Import ListNotations.
 From GMS Require Import Store.C20AutoInc.
 Open Scope Z_scope.
 
-Definition obs : Type := (bool * Z * Z * Z * list Z)%type.
+Definition obs : Type := (bool * Z * list Z * Z * list Z)%type.
 (* the column type's maximum, then the history *)
-Definition case : Type := (Z * list (event * obs))%type.
+Definition case : Type := (Z * list (wevent * obs))%type.
 
 Fixpoint zs_eqb (a b : list Z) : bool :=
   match a, b with
@@ -22,28 +24,24 @@ Fixpoint zinsert (x : Z) (l : list Z) : list Z :=
   match l with [] => [x] | y :: l' => if x <=? y then x :: l else y :: zinsert x l' end.
 Definition zsort (l : list Z) : list Z := fold_right zinsert [] l.
 
-Definition step_ok (tmax : Z) (s : st) (e : event) (o : obs) : bool * st :=
-  let '(okb, iid, l, c, stored) := o in
-  let '(s', (okm, iidm)) := step tmax s e in
-  (Bool.eqb okb okm && (if okb then iid =? iidm else true) && (l =? lid s') && (c =? ctr s') && zs_eqb stored (zsort (ids s')), s').
+Definition ev_sess (e : wevent) : nat :=
+  match e with WStmt i _ => i | WBegin i => i | WCommit i => i | WRollback i => i end.
 
-(* Not modelled: an INSERT IGNORE that skips a row (duplicate id or duplicate u) whose explicit id exceeds the counter.  The engine then works on two copies of the table data with different counters (the session's,
-   raised by GetNextAutoIncrementValue, and the accumulator's, which wins at the end of the statement unless no row was
-   committed before).  The comparison of such a history stops at that statement. *)
-Definition risky (s : st) (e : event) : bool :=
-  match e with
-  | EInsert true specs =>
-      existsb (fun sp => match fst sp with Some k => (ctr s <? k) && (snd sp || existsb (Z.eqb k) (ids s)) | None => false end) specs
-  | _ => false
-  end.
+Definition step_ok (tmax : Z) (w : world) (e : wevent) (o : obs) : bool * world :=
+  let '(okb, iid, lids, c, stored) := o in
+  let '(w', (okm, iidm)) := wstep tmax w e in
+  let t := wtable w' (ev_sess e) in
+  (Bool.eqb okb okm && (if okb then iid =? iidm else true) &&
+   zs_eqb lids (map (fun j => nth j (wlid w') 0) (seq 0 (length lids))) &&
+   (c =? t_ctr t) && zs_eqb stored (zsort (map fst (t_rows t))), w').
 
-Fixpoint run_ok (tmax : Z) (s : st) (c : list (event * obs)) : bool :=
+Fixpoint run_ok (tmax : Z) (w : world) (c : list (wevent * obs)) : bool :=
   match c with
   | [] => true
-  | (e, o) :: c' => if risky s e then true else let '(b, s') := step_ok tmax s e o in b && run_ok tmax s' c'
+  | (e, o) :: c' => let '(b, w') := step_ok tmax w e o in b && run_ok tmax w' c'
   end.
 
-Definition ok (c : case) : bool := run_ok (fst c) init (snd c).
+Definition ok (c : case) : bool := run_ok (fst c) winit (snd c).
 
 Definition mismatches (cs : list (N * case)) : list N :=
   map fst (filter (fun p => negb (ok (snd p))) cs).
